@@ -67,6 +67,14 @@ class EventChannel(BaseEventChannel):
         while self.buffer:
             try:
                 request, _, self.buffer = self.parse_request(self.buffer)
+            except Exception:
+                # Data that cannot be parsed will not become valid by waiting for more
+                # data, so drop it. Trying again would fail the same way forever.
+                _LOGGER.exception("Failed to parse message on event channel")
+                self.buffer = b""
+                break
+
+            try:
                 if request is None:
                     _LOGGER.debug("Not enough data to parse request on event channel")
                     break
